@@ -191,6 +191,10 @@ type query struct {
 	QR    bool
 	RD    bool
 	Class uint16
+	// EDNS(0): every query of the resolver carries one OPT pseudo-record in the additional section
+	OPT     bool
+	UDPSize uint16 // requestor's payload size advertised in the OPT record
+	Len     int    // wire length of the query
 }
 
 var errBadQuery = errors.New("malformed query")
@@ -230,6 +234,31 @@ func parseQuery(b []byte) (query, error) {
 	q.Name = strings.Join(labels, ".")
 	q.Type = binary.BigEndian.Uint16(b[off:])
 	q.Class = binary.BigEndian.Uint16(b[off+2:])
+	off += 4
+	q.Len = len(b)
+	// answer and authority sections of a query are empty
+	if binary.BigEndian.Uint16(b[6:]) != 0 || binary.BigEndian.Uint16(b[8:]) != 0 {
+		return q, errBadQuery
+	}
+	for range binary.BigEndian.Uint16(b[10:]) {
+		// additional records: only the OPT pseudo-record (root owner name) is expected
+		if off+11 > len(b) || b[off] != 0 {
+			return q, errBadQuery
+		}
+		typ := binary.BigEndian.Uint16(b[off+1:])
+		rdlen := int(binary.BigEndian.Uint16(b[off+9:]))
+		if off+11+rdlen > len(b) {
+			return q, errBadQuery
+		}
+		if typ == tOPT {
+			q.OPT = true
+			q.UDPSize = binary.BigEndian.Uint16(b[off+3:])
+		}
+		off += 11 + rdlen
+	}
+	if off != len(b) {
+		return q, errBadQuery // trailing bytes: mis-framed
+	}
 	return q, nil
 }
 
